@@ -159,6 +159,7 @@ where
                         .map(|p| format!("{} at {}: {}", p.thread, p.location, p.message))
                         .collect::<Vec<_>>()
                         .join(" | ");
+                    dump_threads_if_asked();
                     return Guarded::Hung(format!(
                         "no filesystem or hook activity for {quiet}s; panics: [{msg}]"
                     ));
@@ -167,6 +168,26 @@ where
             Err(mpsc::RecvTimeoutError::Disconnected) => {
                 return Guarded::Panicked("case thread vanished".into());
             }
+        }
+    }
+}
+
+/// Diagnosis aid (never part of a verdict): with VERIF_HANG_DUMP=<dir> set, the stacks of all
+/// threads of the hung process are written to <dir>/hang-<pid>-<n>.txt with gdb.
+fn dump_threads_if_asked() {
+    static N: AtomicU64 = AtomicU64::new(0);
+    if let Ok(dir) = std::env::var("VERIF_HANG_DUMP") {
+        let n = N.fetch_add(1, Ordering::Relaxed);
+        if n >= 3 {
+            return;
+        }
+        let pid = std::process::id();
+        let _ = std::fs::create_dir_all(&dir);
+        let out = std::process::Command::new("gdb")
+            .args(["-p", &pid.to_string(), "-batch", "-ex", "thread apply all bt 25"])
+            .output();
+        if let Ok(o) = out {
+            let _ = std::fs::write(format!("{dir}/hang-{pid}-{n}.txt"), o.stdout);
         }
     }
 }
